@@ -1536,11 +1536,15 @@ def primitive_narrowphase(m: Model, d: Data, ctx: CollisionContext, collision_ta
   # TODO(team): keep the overhead of this small - not launching anything
   # for pair types without collisions, as well as updating the launch dimensions.
 
+  # rebuild the dispatch list on every call: it depends on this model and on the collision table
+  # (e.g. box-box is a primitive pair only when native CCD is disabled), not on earlier calls
+  _PRIMITIVE_COLLISION_TYPES.clear()
+  _PRIMITIVE_COLLISION_FUNC.clear()
   for types, func in _PRIMITIVE_COLLISIONS.items():
     if types not in collision_table:
       continue
     idx = upper_trid_index(len(GeomType), types[0].value, types[1].value)
-    if m.geom_pair_type_count[idx] and types not in _PRIMITIVE_COLLISION_TYPES:
+    if m.geom_pair_type_count[idx]:
       _PRIMITIVE_COLLISION_TYPES.append(types)
       _PRIMITIVE_COLLISION_FUNC.append(func)
 
